@@ -9,10 +9,13 @@
    with timeout t ends by t.  The safety invariant is what makes those two assumptions
    sufficient for "no query outwaits its deadline".
 
-   [fixed] selects the wake rule of ares_send_query():
-     false = the pinned tree: the thread is woken only when a socket interest changed
-             (sock_state_cb -> ares_event_update -> wake) or a TCP write is pending;
-     true  = with the fix: additionally when the new query has the earliest deadline. *)
+   [rule d dl] is the wake rule of ares_send_query(): does enqueueing a query with deadline d
+   while the outstanding deadlines are dl signal the event thread (in addition to the signal
+   caused by a socket-interest change / pending TCP write, [interest_changed])?
+     rule_pinned   = never                       (the pinned tree)
+     rule_earliest = when d is earlier than every outstanding deadline   (the current code:
+                     the new query is first in queries_by_timeout)
+     rule_only     = only when nothing else is outstanding   (a plausible "optimisation") *)
 From CAres.Base Require Export Outcome.
 Local Open Scope Z_scope.
 
@@ -49,12 +52,17 @@ Definition wait_until (now : Z) (l : list Z) : option Z :=
   | Some m => Some (Z.min (Z.max now m + 1) (now + 2147483647))
   end.
 
-Definition estep (fixed : bool) (s : est) (e : eev) : option est :=
+Definition wake_rule := Z -> list Z -> bool.
+Definition rule_pinned : wake_rule := fun _ _ => false.
+Definition rule_earliest : wake_rule := earliest.
+Definition rule_only : wake_rule := fun _ l => match l with [] => true | _ => false end.
+
+Definition estep (rule : wake_rule) (s : est) (e : eev) : option est :=
   match e with
   | Enqueue d ic =>
       if d <? e_now s then None
       else Some (mkE (e_now s) (d :: e_dl s) (e_th s)
-                     (e_wake s || ic || (fixed && earliest d (e_dl s))))
+                     (e_wake s || ic || rule d (e_dl s)))
   | Sleep =>
       match e_th s with
       | Running => Some (mkE (e_now s) (e_dl s) (Blocked (wait_until (e_now s) (e_dl s))) (e_wake s))
@@ -79,10 +87,10 @@ Definition estep (fixed : bool) (s : est) (e : eev) : option est :=
   | Tick dt => if dt <? 0 then None else Some (mkE (e_now s + dt) (e_dl s) (e_th s) (e_wake s))
   end.
 
-Fixpoint erun (fixed : bool) (s : est) (tr : list eev) : option est :=
+Fixpoint erun (rule : wake_rule) (s : est) (tr : list eev) : option est :=
   match tr with
   | [] => Some s
-  | e :: r => match estep fixed s e with None => None | Some s' => erun fixed s' r end
+  | e :: r => match estep rule s e with None => None | Some s' => erun rule s' r end
   end.
 
 Definition einit : est := mkE 0 [] Running false.
